@@ -135,12 +135,12 @@ def run(ctx):
             ctx.violation("never-other-key(spelling)", dict(op="hdk::derive", seed=s.hex(), path=t), ref and hex(ref), r.fields[0].hex())
         elif r.tag in ("panic", "abort", "timeout"):
             ctx.violation("derive:abnormal", dict(op="hdk::derive", seed=s.hex(), path=t), "result or error", str(r)[:200])
-    neg = ["m/-0", "m/-0'", "m/-00", "m/44'/60'/0'/0/-0", "m/44'/60'/-0'/0/0", "m/-000000000000", "m/0/-0/0"]
+    neg = ["m/2147483648'", "m/2147483692'/60'/0'/0/0", "m/4294967295'", "m/44'/2147483708'/0'/0/0", "m/0/2147483648", "m/4294967296'", "m/-0", "m/-0'", "m/-00", "m/44'/60'/0'/0/-0", "m/44'/60'/-0'/0/0", "m/-000000000000", "m/0/-0/0"]
     for t, r in zip(neg, ctx.harness([("derive", seeds[3], t) for t in neg])):
         ctx.count("negative-zero-component")
         ctx.distinct(("negzero", t))
         if r.tag != "err":
-            ctx.violation("never-other-key(spelling)", dict(op="hdk::derive", seed=seeds[3].hex(), path=t), "an error: a component with a minus sign is not a child number", str(r)[:200])
+            ctx.violation("never-other-key(spelling)", dict(op="hdk::derive", seed=seeds[3].hex(), path=t), "an error: not a child number below 2^31", str(r)[:200])
     ctx.sample(dict(op="hdk::derive", seed=cases[0][0].hex(), path=text_of(cases[0][1]), key=impl[0].fields[0].hex() if impl[0].fields else None))
 
     # CLI: export --hd-path prints the same key as the library for the seed of a mnemonic (C16 covers this broadly)
